@@ -2,6 +2,7 @@
 // Compiled with -fno-access-control so that private members, masks and encodeDlc are reachable.
 #include <cstddef>
 #include <cstdio>
+#include <cstring>
 #include <string>
 
 #include <asam_cmp/analog_payload.h>
@@ -9,6 +10,7 @@
 #include <asam_cmp/can_payload.h>
 #include <asam_cmp/capture_module_payload.h>
 #include <asam_cmp/cmp_header.h>
+#include <asam_cmp/decoder.h>
 #include <asam_cmp/ethernet_payload.h>
 #include <asam_cmp/interface_payload.h>
 #include <asam_cmp/lin_payload.h>
@@ -141,6 +143,76 @@ int main()
     item("tecmp.dt.lin", static_cast<uint16_t>(TECMP::CmpHeader::DataType::lin));
     item("cm.minPayloadSize", CaptureModulePayload::minPayloadSize);
     item("if.minPayloadSize", InterfacePayload::minPayloadSize);
+    close();
+
+    // Decoder::SegmentedPacket::isValidSegmentType for every (current, next) pair of segment types
+    printf("def validNextTable : List (Nat × Nat × Bool) := [");
+    {
+        bool first = true;
+        for (int cur : {0, 4, 8, 12})
+            for (int nxt : {0, 4, 8, 12})
+            {
+                Decoder::SegmentedPacket sp;
+                sp.segmentType = static_cast<MessageHeader::SegmentType>(cur);
+                printf("%s(%d, %d, %s)", first ? "" : ", ", cur, nxt, sp.isValidSegmentType(static_cast<MessageHeader::SegmentType>(nxt)) ? "true" : "false");
+                first = false;
+            }
+    }
+    printf("]\n\n");
+
+    // rules checked exhaustively on the real functions (the loop runs here, Lean checks that every verdict is `true`)
+    open("rules", "String × Nat");
+    {
+        bool ok = true;
+        for (uint32_t t = 0; t < 65536; ++t)
+        {
+            PayloadType pt(t);
+            ok = ok && pt.isValid() == (((t & 0xFF) != 0) && ((t & 0xFF00) != 0)) && static_cast<uint32_t>(pt.getMessageType()) == ((t >> 8) & 0xFF) &&
+                 pt.getRawPayloadType() == (t & 0xFF);
+        }
+        item("PayloadType: valid iff both bytes non-zero; message type = high byte, raw type = low byte (all 65536 types)", ok ? 1 : 0);
+        ok = true;
+        for (uint32_t v = 0; v < 65536; ++v)
+            ok = ok && swapEndian(static_cast<uint16_t>(v)) == static_cast<uint16_t>(((v & 0xFF) << 8) | (v >> 8));
+        item("swapEndian(uint16_t) swaps the two bytes (all 65536 values)", ok ? 1 : 0);
+        ok = true;
+        for (int i = 0; i < 32; ++i)
+        {
+            const uint32_t v = 0x01020304u * (i + 1) + (1u << i);
+            const uint8_t* b = reinterpret_cast<const uint8_t*>(&v);
+            const uint32_t w = swapEndian(v);
+            const uint8_t* c = reinterpret_cast<const uint8_t*>(&w);
+            ok = ok && b[0] == c[3] && b[1] == c[2] && b[2] == c[1] && b[3] == c[0];
+            const uint64_t v8 = 0x0102030405060708ull * (i + 1) + (1ull << (2 * i));
+            const uint8_t* b8 = reinterpret_cast<const uint8_t*>(&v8);
+            const uint64_t w8 = swapEndian(v8);
+            const uint8_t* c8 = reinterpret_cast<const uint8_t*>(&w8);
+            for (int k = 0; k < 8; ++k) ok = ok && b8[k] == c8[7 - k];
+        }
+        item("swapEndian(uint32_t / uint64_t) reverse the bytes (64 probe values incl. every single bit)", ok ? 1 : 0);
+        ok = true;
+        for (uint32_t mt = 0; mt < 256; ++mt)
+            for (uint32_t b6 = 0; b6 < 256; ++b6)
+                for (uint32_t b7 = 0; b7 < 256; b7 += (b7 < 2 || b7 > 252) ? 1 : 37)
+                {
+                    uint8_t raw[28] = {0};
+                    raw[5] = static_cast<uint8_t>(mt); raw[6] = static_cast<uint8_t>(b6); raw[7] = static_cast<uint8_t>(b7);
+                    TECMP::CmpHeader h;
+                    memcpy(static_cast<void*>(&h), raw, 28);
+                    ok = ok && h.isValid() == !(mt == 0xFF || (b6 == 0xFF && b7 == 0));
+                }
+        item("TECMP header valid iff message type != 0xFF and data type bytes != FF 00 (256 x 256 x 12 headers)", ok ? 1 : 0);
+        ok = true;
+        for (uint32_t f = 0; f < 256; ++f)
+        {
+            uint8_t raw[16] = {0};
+            raw[12] = static_cast<uint8_t>(f);
+            MessageHeader h;
+            memcpy(static_cast<void*>(&h), raw, 16);
+            ok = ok && static_cast<uint32_t>(h.getSegmentType()) == (f & 0x0C) && h.getCommonFlag(MessageHeader::CommonFlags::errorInPayload) == ((f & 0x40) != 0);
+        }
+        item("message header: segment type = flags & 0x0C, error-in-payload = bit 6 (all 256 flag bytes)", ok ? 1 : 0);
+    }
     close();
 
     // the DLC table as the real encodeDlc computes it, for all 256 data lengths
